@@ -50,6 +50,7 @@ static bool sys_is_target(int fd) {
 using sim::g_alloc;
 
 static inline void *sim_alloc(size_t n, size_t align, bool nothrow) {
+    ++sim::g_clock.progress_token;   // allocation counts as progress for the liveness rule
     if (g_alloc.active) {
         ++g_alloc.count;
         if (n > g_alloc.per_request_cap || (g_alloc.fail_at >= 0 && g_alloc.count == g_alloc.fail_at)) {
